@@ -63,6 +63,13 @@ THEOREMS = [
     "Verif.C11.driving_estimator_decomposes",
     "Verif.C11.fit_validation_iff",
     "Verif.C11.fit_validation_errors",
+    "Verif.C11.brenner_correction_pos",
+    "Verif.C11.brenner_singular_at_contact",
+    "Verif.C11.constructed_model_drag_pos",
+    "Verif.C11.error_propagation_constructed",
+    "Verif.C11.psdOr_lorentz_diode",
+    "Verif.C11.fit_recovery_unique_model",
+    "Verif.C11.driven_power_peak_is_max",
 ]
 RULE = (
     "corpus (8 representative + the open finding F-C11-1) + exhaustive option matrix (hydro x axial x distance{None, at the "
@@ -457,6 +464,8 @@ def measured(m, drive=None):
         "amp": float(m.driving_amplitude),
         "amp_err": None if amp_err is None else float(amp_err),
         "maxP": float(ps.power[idx]),
+        # deepening round D: the whole spectrum of DrivenPower - the model takes the peak itself (np.argmax)
+        "powers": [float(v) for v in ps.power],
         "df": float(df),
         "perr": err,
     }
@@ -488,6 +497,11 @@ def meas_tokens(meas):
         f"{enc_float(meas['f'])} {enc_float(meas['amp'])} {enc_float(0.0 if meas['amp_err'] is None else meas['amp_err'])} "
         f"{enc_float(meas['maxP'])} {enc_float(meas['df'])} {enc_float(float('nan') if meas['perr'] is None else meas['perr'])}"
     )
+
+
+def powers_token(meas):
+    """optional last token of c11.active: the spectrum around the driving peak (the model finds the peak itself)"""
+    return "" if not meas.get("powers") else " " + fl(meas["powers"])
 
 
 def route_f2(case):
@@ -761,7 +775,7 @@ def ops(case):
         return [
             f"c11.active {opt_tokens(case['o'])} {filt_tokens(case['o'], case.get('fixed'))} {meas_tokens(meas)} "
             f"{enc_float(case['fc'])} {enc_float(case['D'])} {enc_float(case['efc'])} "
-            f"{enc_float(case['eD'])} {fl(case['pars'])}"
+            f"{enc_float(case['eD'])} {fl(case['pars'])}{powers_token(meas)}"
         ]
     if k == "anl":
         return [f"c11.anl {enc_list(case['fs'], enc_rat)} {enc_list(case['ps'], enc_rat)} {enc_float(case['dur'])}"]
@@ -798,7 +812,7 @@ def ops(case):
         return [
             f"c11.active {opt_tokens(o)} {filt_tokens(o, fixed)} {meas_tokens(meas)} "
             f"{enc_float(info['fc'])} {enc_float(info['D'])} {enc_float(info['efc'])} "
-            f"{enc_float(info['eD'])} {fl(info['pars'])}"
+            f"{enc_float(info['eD'])} {fl(info['pars'])}{powers_token(meas)}"
         ]
     if k == "fitval":
         return [f"c11.fitvalidate {case['npts']} {case['loss']} {enc_bool(case['bias'])} {case['npts'] if case['anl'] else 0}"]
@@ -1434,6 +1448,9 @@ def extra_coverage(results):
         "fit_validation_scope(impl answers)": {
             k: sum(1 for r in results if r["case"]["op"] == "fitval" and r["impl"][0] == k) for k in ("ok", "RuntimeError", "ValueError")
         },
+        "active_cases_with_model_side_peak_search(np.argmax of DrivenPower)": sum(
+            1 for r in results if r["ops"] and r["ops"][0].startswith("c11.active") and r["ops"][0].rstrip().endswith("]") and r["ops"][0].count("[") >= 2
+        ) if results and "ops" in results[0] else "n/a",
         "drive_estimator_ties": len(drv),
         "drive_estimator_scope_cases": sum(1 for r in drv if r["case"].get("scope")),
         "drive_estimator_branches(impl)": dict(sorted(dbr.items())),
